@@ -240,97 +240,7 @@ func checkC06(res *Result) {
 	}
 
 	// R3
-	checkGuardedBy(res, p, E, "C06-R3", "FederatingWrappedCallbacks.accept", "FederatingWrappedCallbacks.accept$1", eDBW, "verification of the Follow")
-	if fn := p.Func("FederatingWrappedCallbacks.accept"); fn != nil {
-		ff := computeFacts(fn)
-		ver := findCalls(E, fn, "FederatingWrappedCallbacks.accept$1")
-		for _, c := range findCalls(E, fn, "Database.Following") {
-			if len(ver) == 1 {
-				v := ver[0].(*ssa.Call)
-				res.check(dominates(v, c) && ff.has(c, v, fNIL, ""), "C06-R3", fname(fn), p.pos(c), "following is read only after the Follow was verified", "facts: "+ff.describe(c))
-			}
-		}
-	}
-	if fn := p.MustFunc(res, "C06-R3", "FederatingWrappedCallbacks.accept$1"); fn != nil {
-		ff := computeFacts(fn)
-		g := flowOf(fn)
-		gets := findCalls(E, fn, "Database.Get")
-		if len(gets) != 1 {
-			res.bad("C06-R3", fname(fn), p.pos(fn), "the referenced Follow is read from the local Database once", fmt.Sprintf("%d Get calls", len(gets)))
-		} else {
-			get := gets[0].(*ssa.Call)
-			stored := ssa.Value(extractOf(get, 0))
-			gerr := ssa.Value(extractOf(get, 1))
-			fromStored := func(v ssa.Value) bool {
-				return anyBackward(g, v, func(x ssa.Value) bool { return x == stored })
-			}
-			// actors / objects read for verification come from the stored value
-			nA, nO := 0, 0
-			for _, ci := range callsIn(fn) {
-				cc := ci.Common()
-				if !cc.IsInvoke() {
-					continue
-				}
-				switch cc.Method.Name() {
-				case "GetActivityStreamsActor":
-					nA++
-					res.check(fromStored(cc.Value), "C06-R3", fname(fn), p.pos(ci), "the Follow's actors are read from the stored Follow", "receiver does not derive from Database.Get's result: a peer-supplied copy is trusted")
-				case "GetActivityStreamsObject":
-					nO++
-					res.check(fromStored(cc.Value), "C06-R3", fname(fn), p.pos(ci), "the Follow's objects are read from the stored Follow", "receiver does not derive from Database.Get's result: a peer-supplied copy is trusted")
-				}
-			}
-			res.check(nA >= 1 && nO >= 1, "C06-R3", fname(fn), p.pos(fn), "both the actors and the objects of the stored Follow are examined", fmt.Sprintf("actor reads %d, object reads %d", nA, nO))
-			// success returns
-			nOK := 0
-			for _, r := range returnsIn(fn) {
-				mn, _ := ff.errStatus(r, 0)
-				if !mn || !ff.reachable(r) {
-					continue
-				}
-				nOK++
-				s := ff.at[r]
-				isFollow := false
-				for f := range s.facts {
-					if f.k == fTRUE && strings.HasPrefix(f.v, "pure:IsOrExtendsActivityStreamsFollow(") {
-						isFollow = true
-					}
-				}
-				res.check(gerr != nil && ff.has(r, gerr, fNIL, "") && isFollow, "C06-R3", fname(fn), p.pos(r), "verification succeeds only for a stored value that is a Follow", "facts: "+ff.describe(r))
-			}
-			res.check(nOK == 1, "C06-R3", fname(fn), p.pos(fn), "one success exit, at the end of all checks", fmt.Sprintf("%d success returns", nOK))
-			// the three loops: local actor among actors (search), accept actors collected, objects matched, all found
-			checkSearchFlags(res, p, "C06-R3", fn)
-			// the final "all found" loop must fail on a missing one: a range over a map with a failure return inside
-			nAll := 0
-			for _, b := range fn.Blocks {
-				for _, ins := range b.Instrs {
-					if rg, ok := ins.(*ssa.Range); ok {
-						if _, isMap := rg.X.Type().Underlying().(interface{ Key() interface{} }); isMap {
-							_ = isMap
-						}
-						lb := loopBlocks(b.Succs[0])
-						hasFail := false
-						for x := range lb {
-							for _, s := range x.Succs {
-								if !lb[s] {
-									for _, i2 := range s.Instrs {
-										if r, ok := i2.(*ssa.Return); ok && failureReturnPred(ff)(r) {
-											hasFail = true
-										}
-									}
-								}
-							}
-						}
-						if strings.HasPrefix(rg.X.Type().String(), "map[string]bool") && hasFail {
-							nAll++
-						}
-					}
-				}
-			}
-			res.check(nAll >= 1, "C06-R3", fname(fn), p.pos(fn), "every accepting actor must have been found among the stored Follow's objects (a missing one fails)", "no loop over the found-map with a failure exit")
-		}
-	}
+	checkAcceptVerification(res, p, E, "C06-R3")
 
 	// R4
 	for _, n := range []string{"FederatingWrappedCallbacks.undo", "SocialWrappedCallbacks.undo"} {
@@ -474,4 +384,103 @@ func checkSearchFlags(res *Result, p *Pub, rule string, fn *ssa.Function) {
 			res.check(okMono, rule, fname(fn), p.pos(phi), "search flag "+phi.Comment+" is monotone in its loop (only ever set to a constant)", "the flag is recomputed from a per-element value: the last element decides instead of any element")
 		}
 	}
+}
+
+// checkAcceptVerification: what "a verified Accept" means (C06-R3; C04 relies on it under its own
+// id): Following/Update only after the verifying closure succeeded; the closure succeeds only
+// after Database.Get of the referenced id, IsOrExtendsFollow, the local actor found among the
+// stored Follow's actors, and every accepting actor found among the stored Follow's objects.
+func checkAcceptVerification(res *Result, p *Pub, E *Effects, rule string) {
+	checkGuardedBy(res, p, E, rule, "FederatingWrappedCallbacks.accept", "FederatingWrappedCallbacks.accept$1", eDBW, "verification of the Follow")
+	if fn := p.Func("FederatingWrappedCallbacks.accept"); fn != nil {
+		ff := computeFacts(fn)
+		ver := findCalls(E, fn, "FederatingWrappedCallbacks.accept$1")
+		for _, c := range findCalls(E, fn, "Database.Following") {
+			if len(ver) == 1 {
+				v := ver[0].(*ssa.Call)
+				res.check(dominates(v, c) && ff.has(c, v, fNIL, ""), rule, fname(fn), p.pos(c), "following is read only after the Follow was verified", "facts: "+ff.describe(c))
+			}
+		}
+	}
+	if fn := p.MustFunc(res, rule, "FederatingWrappedCallbacks.accept$1"); fn != nil {
+		ff := computeFacts(fn)
+		g := flowOf(fn)
+		gets := findCalls(E, fn, "Database.Get")
+		if len(gets) != 1 {
+			res.bad(rule, fname(fn), p.pos(fn), "the referenced Follow is read from the local Database once", fmt.Sprintf("%d Get calls", len(gets)))
+		} else {
+			get := gets[0].(*ssa.Call)
+			stored := ssa.Value(extractOf(get, 0))
+			gerr := ssa.Value(extractOf(get, 1))
+			fromStored := func(v ssa.Value) bool {
+				return anyBackward(g, v, func(x ssa.Value) bool { return x == stored })
+			}
+			// actors / objects read for verification come from the stored value
+			nA, nO := 0, 0
+			for _, ci := range callsIn(fn) {
+				cc := ci.Common()
+				if !cc.IsInvoke() {
+					continue
+				}
+				switch cc.Method.Name() {
+				case "GetActivityStreamsActor":
+					nA++
+					res.check(fromStored(cc.Value), rule, fname(fn), p.pos(ci), "the Follow's actors are read from the stored Follow", "receiver does not derive from Database.Get's result: a peer-supplied copy is trusted")
+				case "GetActivityStreamsObject":
+					nO++
+					res.check(fromStored(cc.Value), rule, fname(fn), p.pos(ci), "the Follow's objects are read from the stored Follow", "receiver does not derive from Database.Get's result: a peer-supplied copy is trusted")
+				}
+			}
+			res.check(nA >= 1 && nO >= 1, rule, fname(fn), p.pos(fn), "both the actors and the objects of the stored Follow are examined", fmt.Sprintf("actor reads %d, object reads %d", nA, nO))
+			// success returns
+			nOK := 0
+			for _, r := range returnsIn(fn) {
+				mn, _ := ff.errStatus(r, 0)
+				if !mn || !ff.reachable(r) {
+					continue
+				}
+				nOK++
+				s := ff.at[r]
+				isFollow := false
+				for f := range s.facts {
+					if f.k == fTRUE && strings.HasPrefix(f.v, "pure:IsOrExtendsActivityStreamsFollow(") {
+						isFollow = true
+					}
+				}
+				res.check(gerr != nil && ff.has(r, gerr, fNIL, "") && isFollow, rule, fname(fn), p.pos(r), "verification succeeds only for a stored value that is a Follow", "facts: "+ff.describe(r))
+			}
+			res.check(nOK == 1, rule, fname(fn), p.pos(fn), "one success exit, at the end of all checks", fmt.Sprintf("%d success returns", nOK))
+			// the three loops: local actor among actors (search), accept actors collected, objects matched, all found
+			checkSearchFlags(res, p, rule, fn)
+			// the final "all found" loop must fail on a missing one: a range over a map with a failure return inside
+			nAll := 0
+			for _, b := range fn.Blocks {
+				for _, ins := range b.Instrs {
+					if rg, ok := ins.(*ssa.Range); ok {
+						if _, isMap := rg.X.Type().Underlying().(interface{ Key() interface{} }); isMap {
+							_ = isMap
+						}
+						lb := loopBlocks(b.Succs[0])
+						hasFail := false
+						for x := range lb {
+							for _, s := range x.Succs {
+								if !lb[s] {
+									for _, i2 := range s.Instrs {
+										if r, ok := i2.(*ssa.Return); ok && failureReturnPred(ff)(r) {
+											hasFail = true
+										}
+									}
+								}
+							}
+						}
+						if strings.HasPrefix(rg.X.Type().String(), "map[string]bool") && hasFail {
+							nAll++
+						}
+					}
+				}
+			}
+			res.check(nAll >= 1, rule, fname(fn), p.pos(fn), "every accepting actor must have been found among the stored Follow's objects (a missing one fails)", "no loop over the found-map with a failure exit")
+		}
+	}
+
 }
